@@ -41,10 +41,10 @@ SingCat == << << <<3, 1, 0, 0>>, <<1, -1, 1, 0>> >>, << <<4, 0, 1, 0>>, <<2, 1, 
 
 \* the complex instance of this module (MC_CFactor, Gaussian-rational scalars) generates the complex eigenproblems only
 Complex == ~RIsReal(RCx(RZero, ROne))
-Kinds == IF Complex THEN {"eig2c", "eig2cc", "eig2ch"}
+Kinds == IF Complex THEN {"eig2c", "eig2cc", "eig2ch", "eig2rot"}
          ELSE {"qr2", "qr3", "qr_tall", "qr_wide", "qr_full", "chol2", "chol3", "lu3", "eigh3", "svd32", "eig2"}
 NB(k) == CASE k \in {"qr2", "qr3", "qr_tall", "qr_wide", "qr_full", "chol2", "chol3"} -> 3
-           [] k = "lu3" -> 6 [] k = "eigh3" -> 6 [] k = "svd32" -> 2 [] k \in {"eig2", "eig2c", "eig2cc", "eig2ch"} -> 2
+           [] k = "lu3" -> 6 [] k = "eigh3" -> 6 [] k = "svd32" -> 2 [] k \in {"eig2", "eig2c", "eig2cc", "eig2ch", "eig2rot"} -> 2
 Init == kind = "none" /\ b = 0 /\ q = 0
 Next == \/ /\ kind = "none" /\ kind' \in Kinds /\ b' \in 1..NB(kind') /\ q' = 0
         \/ /\ kind # "none" /\ q = 0 /\ q' \in 1..Q /\ UNCHANGED <<kind, b>>
@@ -91,6 +91,14 @@ Inst ==
                                                          ELSE RCx(RInt(Noise(q, i, j, d)), RInt(Noise(q + 1, j, i, d + 1)))])
              lam == << LamSeries(<<1, 1, 0, 0>>), LamSeries(<<3, -1, 0, 0>>) >>
          IN [A |-> Dot(X, Dot(DiagM(lam), Inv(X))), X |-> X, lam |-> [shape |-> <<2>>, v |-> lam]]
+    \*                        "eig2rot" a REAL matrix series [[a, c], [-c, a]] whose spectrum is the conjugate pair a(t) +- i c(t)
+    [] kind = "eig2rot" ->
+         LET a == [d \in 1..Dg |-> IF d = 1 THEN RInt(b) ELSE RInt(Noise(q, 0, 0, d))]
+             c == [d \in 1..Dg |-> IF d = 1 THEN RInt(b + 1) ELSE RInt(Noise(q + 1, 0, 1, d))]
+             ii == SConst(RCx(RZero, ROne), Dg)
+             X == Mat(2, 2, LAMBDA i, j : IF i = 0 THEN SOne(Dg) ELSE IF j = 0 THEN ii ELSE SNeg(ii))
+             lam == << SAdd(a, SMul(ii, c)), SSub(a, SMul(ii, c)) >>
+         IN [A |-> Mat(2, 2, LAMBDA i, j : IF i = j THEN a ELSE IF i = 0 THEN c ELSE SNeg(c)), X |-> X, lam |-> [shape |-> <<2>>, v |-> lam]]
 \* ---- M: the generators produce what they claim (exact identities mod t^D)
 GenOK == Ready => LET I == TLCEval(Inst) IN
   CASE kind \in {"qr2", "qr3", "qr_wide"} -> IsOrtho(I.Q) /\ IsUpper(I.R)
@@ -101,6 +109,9 @@ GenOK == Ready => LET I == TLCEval(Inst) IN
     [] kind = "eigh3" -> IsOrtho(I.Q) /\ Transp(I.A) = I.A /\ Dot(I.A, I.Q) = Dot(I.Q, DiagM(I.lam.v))
     [] kind = "svd32" -> IsOrtho(I.U) /\ IsOrtho(I.V)
     [] kind = "eig2" -> Dot(I.A, I.X) = Dot(I.X, DiagM(I.lam.v))
+    [] kind = "eig2rot" -> /\ Dot(I.A, I.X) = Dot(I.X, DiagM(I.lam.v))
+                           /\ \A k \in 1..4 : \A d \in 1..Dg : RIsReal(I.A.v[k][d])                    \* a real matrix at every order
+                           /\ ~RIsReal(I.lam.v[1][1])                                                   \* with a non-real spectrum
     [] kind = "eig2ch" -> /\ Dot(I.A, I.X) = Dot(I.X, DiagM(I.lam.v))
                           /\ \A k \in 1..2 : \A d \in 1..Dg : RIsReal(I.lam.v[k][d])                     \* real spectrum at every order
                           /\ \E k \in 1..4 : ~RIsReal(I.X.v[k][1])                                      \* complex eigenvectors at order 0
